@@ -10,6 +10,7 @@ import (
 	"os"
 	"reflect"
 	"strconv"
+	"strings"
 
 	"github.com/tonkeeper/tongo/abi"
 	"github.com/tonkeeper/tongo/boc"
@@ -68,12 +69,14 @@ func loadBags(path string) (*specBags, error) {
 			Type  string `json:"type"`
 			Class string `json:"class"`
 			Boc   string `json:"boc"`
+			Seed  int    `json:"seed"`
 		}
 		if err := json.Unmarshal(sc.Bytes(), &v); err != nil {
 			return nil, err
 		}
 		b, _ := hex.DecodeString(v.Boc)
-		g := bag{b, "specgen:" + v.Class}
+		// the seed number travels in the class ("specgen:pruned@17") so that the runner can tell the mutants of one seed
+		g := bag{b, fmt.Sprintf("specgen:%s@%d", v.Class, v.Seed)}
 		switch v.Class {
 		case "roots0":
 			sb.roots0 = append(sb.roots0, g)
@@ -134,7 +137,7 @@ func (sb *specBags) variants(rng *rand.Rand, typ string, t reflect.Type, n int) 
 	for _, cls := range []string{"specgen:mp_root", "specgen:mp_root", "specgen:mp_pair", "specgen:mp_pair"} {
 		var c []bag
 		for _, g := range gs {
-			if g.class == cls {
+			if strings.HasPrefix(g.class, cls+"@") {
 				c = append(c, g)
 			}
 		}
